@@ -71,7 +71,9 @@ def gen_spec(rng, res, root, p_bad_value=0.15, p_missing=0.12,
                     if v == v.strip() and "$" not in v]
             val = rng.choice(cand)
             if dt in ("string", "null") and rng.random() < 0.3:
-                val = rng.choice(["a$b", "$x", "a=b", "${y}", "$$"])
+                val = rng.choice(["a$b", "$x", "a=b", "${y}", "$$", "$(HOME)",
+                                  "$(ZCV_NOPE)", "a$(PATH)b", "$(date)",
+                                  "$(", "$"])
                 info["dollar"] = True
     info["depth"] = len(comps) - 1
     info["target"] = (id(node), repr(family.norm_key(cont.keytype, comps[-1])
